@@ -78,7 +78,7 @@ def s_alphabet(curve, L):
 
 
 def out_of_range(L):
-    return [-L / 10, -math.nextafter(0.0, 1.0), L * (1 + 1e-9), 2 * L]
+    return [-L / 10, -math.nextafter(0.0, 1.0), L * (1 + 1e-9), 2 * L, float('inf'), float('-inf'), float('nan')]
 
 
 def check_curve(desc, scale, acc, only_s=None, rot=0):
@@ -169,7 +169,7 @@ def check_curve(desc, scale, acc, only_s=None, rot=0):
                 except Over:
                     r = ('exc', 'LengthEvaluationBudgetExceeded')
                 if r != ('exc', 'ValueError'):
-                    acc.violation('out_of_range_not_ValueError', {'kind': kind, 'side': 'below' if s < 0 else 'above'},
+                    acc.violation('out_of_range_not_ValueError', {'kind': kind, 'side': 'nan' if s != s else ('below' if s < 0 else 'above')},
                                   {'curve': desc, 'scale': scale, 's': s, 'oor': True, 'rot': rot}, observed=r, expected='ValueError')
     finally:
         for c in classes:
@@ -311,7 +311,8 @@ def replay(case):
     d = d if isinstance(d, str) else tuple(d)
     if case.get('oor') or 's2' in case:
         check_curve(d, case['scale'], acc, rot=case.get('rot', 0))
-        acc.vlist = [v for v in acc.vlist if v['case'].get('s') == case['s']]
+        same = lambda a, b: a == b or (isinstance(a, float) and isinstance(b, float) and a != a and b != b)
+        acc.vlist = [v for v in acc.vlist if same(v['case'].get('s'), case['s'])]
     else:
         check_curve(d, case['scale'], acc, only_s=[case['s']], rot=case.get('rot', 0))
     return acc.vlist
